@@ -59,7 +59,8 @@ def gen_scenario(rng, prop="C10"):
         elif r < 0.55:
             main.append(["release", k - 1])
     if rng.random() < 0.3:
-        main.append(["join_all"])
+        # join_all_threads(children), sometimes with a time limit (a signal that has / has not fired)
+        main.append(["join_all"] + ([rng.choice([0, 1])] if rng.random() < 0.4 else []))
     main.append(["main_stop"])
     return {"main": main}
 
@@ -321,16 +322,26 @@ def run_scenario(sc, chooser=None, seed=0, max_steps=30000):
             sched.note("call", nid, "finish", "ok", a[1])
         elif a[0] == "join_all":
             ids = [k[0] for k in kids]
-            sched.note("call", nid, "join_all", ",".join(str(i) for i in ids) or "-", "-")
+            till_sig = None
+            tl = "-"
+            if len(a) > 1:
+                x = st["tills"]
+                st["tills"] += 1
+                tl = str(x)
+                till_sig = RealSignal("jt%d" % x)
+                if a[1] == 1:
+                    sched.note("env", "fire", x)
+                    till_sig.go()
+            sched.note("call", nid, "join_all", ",".join(str(i) for i in ids) or "-", tl)
             try:
-                res = threads.join_all_threads([k[1] for k in kids])
-                st["join_results"].append((nid, ids, "all_ret", res, True, False))
+                res = threads.join_all_threads([k[1] for k in kids], till=till_sig) if till_sig is not None else threads.join_all_threads([k[1] for k in kids])
+                st["join_results"].append((nid, ids, "all_ret", res, True, till_sig is not None))
                 sched.note("ret", nid, "join_all", "values", "[" + ",".join(
                     str(vidx(r)) if st["outcome"].get(i, ("", 0))[0] == "ok" else "-" for i, r in zip(ids, res)) + "]")
             except ds.SchedAbort:
                 raise
             except BaseException as e:   # noqa
-                st["join_results"].append((nid, ids, "all_raise", e, True, False))
+                st["join_results"].append((nid, ids, "all_raise", e, True, till_sig is not None))
                 sched.note("ret", nid, "join_all", "allraised")
         elif a[0] == "main_stop":
             main = threads.MAIN_THREAD
